@@ -27,6 +27,15 @@ PROBLEMS = collections.OrderedDict(
 
 
 def make(name, v=0, minimizer="iminuit", dea="nonlinear", fit=True, extra_ops=()):
+    if name == "lin-xhz":  # x in units x1e6 (Hz instead of MHz): the slope and its uncertainty are tiny (~1e-6, ~1e-8)
+        w = FitWorld("xy", "chi2", model="lin", v=v, n=8, minimizer=minimizer, dea=dea, xscale=1e6)
+        with warnings.catch_warnings():
+            warnings.simplefilter("ignore")
+            w.apply(("add", "y-abs", "e0"))
+            w.apply(("set", {"a": 1.0e-6, "b": 0.8}))
+            if fit:
+                w.apply(("fit",))
+        return w
     ftype, model, truth, ops = PROBLEMS[name]
     n = 10 if truth is not None else 8
     w = FitWorld(ftype, "chi2", model=model, v=v, n=n, minimizer=minimizer, dea=dea, gen=(truth, 0.3) if truth is not None else None)
